@@ -70,6 +70,11 @@ def enumerated():
     for lab, e in AI_OK: C.append(mk(lab, ["{proj}"] + CM + out, 0, "completed", env=e, report=True))
     for lab, p in UNWRITABLE: C.append(mk(lab, ["{proj}"] + CM + ["--output", p], 2, "unwritable-output", outpath=p))
     C.append(mk("out-readonly-dir", ["{proj}"] + CM + ["--output", "{dir}/ro/r.json"], 2, "unwritable-output-unless-root", outpath="{dir}/ro/r.json"))
+    # names that are not valid UTF-8 (Linux paths are bytes): the report cannot be encoded as JSON, i.e. it cannot be written -> 2; valid non-ASCII names are fine -> 0
+    C.append(dict(mk("target-dir-name-not-utf8", ["{proj}"] + CM + out, 2, "unwritable-output"), target_name=b"proj_\xff"))
+    C.append(dict(mk("target-dir-name-non-ascii", ["{proj}"] + CM + out, 0, "completed", report=True), target_name="proj_\u00e9\u2713".encode("utf-8")))
+    C.append(dict(mk("changed-file-name-not-utf8", ["{proj}"] + CM + out, 2, "unwritable-output"), extra_file=b"m_\xff.py"))
+    C.append(dict(mk("changed-file-name-non-ascii", ["{proj}"] + CM + out, 0, "completed", report=True), extra_file="m_\u00e9.py".encode("utf-8")))
     # precedence
     C.append(mk("prec-bad-flag+missing-dir", ["{dir}/nope", "--bogus"], 3, "argument-error"))
     C.append(mk("prec-missing-dir+missing-sarif", ["{dir}/nope", "--sarif", "{dir}/missing.sarif"] + out, 1, "missing-directory", report=False))
@@ -116,7 +121,30 @@ def sampled(rnd, n):
         C.append(mk(f"rand{k}:" + "+".join(labs), flat, expect, cls, env=env, report=report, outpath=outp))
     return C
 
+def one_bytes(c):
+    """invocations whose paths are raw bytes (not expressible as str argv)"""
+    import subprocess, tempfile
+    from vf import env
+    d = tempfile.mkdtemp(prefix="vf_bb_").encode(); proj = os.path.join(d, c.get("target_name") or b"proj"); os.makedirs(proj)
+    for rel, data in SRC.items():
+        p = os.path.join(proj, rel.encode()); os.makedirs(os.path.dirname(p), exist_ok=True); open(p, "wb").write(data)
+    if c.get("extra_file"): open(os.path.join(proj, c["extra_file"]), "wb").write(b"y = set([2])\n")
+    e = env.child_env(c["env"], scratch_home=os.path.join(d.decode(), "home")); os.makedirs(e["HOME"], exist_ok=True); e["TMPDIR"] = os.path.join(d.decode(), "tmp"); os.makedirs(e["TMPDIR"], exist_ok=True)
+    args = [proj if a == "{proj}" else a.replace("{dir}", d.decode()).encode() for a in c["argv"]]
+    try:
+        r = subprocess.run([os.path.join(env.VENV_BIN, "codemodder").encode()] + args, env=e, capture_output=True, timeout=300, cwd=d)
+        out = {"rc": r.returncode, "stderr": r.stderr.decode("utf-8", "replace")[-4000:], "status": "ok"}
+    except subprocess.TimeoutExpired: out = {"rc": None, "status": "timeout"}
+    outp = c["outpath"].replace("{dir}", d.decode())
+    out["report_exists"] = os.path.isfile(outp); out["report_valid"] = None
+    if out["report_exists"]:
+        try: json.load(open(outp, encoding="utf-8")); out["report_valid"] = True
+        except Exception: out["report_valid"] = False
+    shutil.rmtree(d, ignore_errors=True)
+    return out
+
 def one(c):
+    if c.get("target_name") or c.get("extra_file"): return one_bytes(c)
     def setup(d):
         setup_files(d); os.makedirs(os.path.join(d, "emptydir"))
     r = BB.run_cli(c["argv"], files=SRC, extra_env=c["env"], setup=setup, timeout=300)
@@ -142,7 +170,7 @@ def evaluate(c, r):
         out.append((f"exit-status/{c['cls']}/expected-{c['expect']}-got-{r['rc']}", f"{c['name']}: exit status {r['rc']}, documented {c['expect']}"))
     elif c["report"] is True and not (r["report_exists"] and r["report_valid"]):
         out.append(("report-missing-or-invalid-after-exit-0", f"{c['name']}: exit 0 but no readable report"))
-    if r["rc"] not in (0, None) and r["report_exists"]:
+    if r["rc"] not in (0, None) and r["report_exists"] and r["report_valid"]:
         out.append((f"nonzero-although-report-written/{c['cls']}", f"{c['name']}: exit {r['rc']} but the report file exists"))
     return out
 
@@ -157,7 +185,8 @@ def main():
         nt.add((tuple(c["argv"]), tuple(sorted(c["env"].items()))))
         if len(samples) < 5 and c["name"].startswith("rand"): samples.append({"name": c["name"], "argv": c["argv"], "env": c["env"], "expected": c["expect"], "observed": r["rc"], "report_written": r["report_exists"]})
         for key, what in evaluate(c, r):
-            viols.append(Violation("C20", key, what, {"case": c, "rc": r["rc"], "stderr_tail": r.get("stderr", "")[-600:], "report_exists": r["report_exists"]}, jobs=[c]))
+            cj = {k: (v_.decode("latin-1") if isinstance(v_, bytes) else v_) for k, v_ in c.items()}
+            viols.append(Violation("C20", key, what, {"case": cj, "rc": r["rc"], "stderr_tail": r.get("stderr", "")[-600:], "report_exists": r["report_exists"]}, jobs=[cj]))
     # valid invocations over diverse real projects (the shared grid: every codemod, contexts, layouts, SAST inputs): a completed run exits 0 -
     # an exception escaping run() is the console script's exit status 1 with a traceback, which the table does not allow for valid input
     from vf.checks import grid
@@ -186,6 +215,8 @@ def main():
 def replay(art):
     out = []
     for c in art.get("jobs") or []:
+        for k in ("target_name", "extra_file"):
+            if isinstance(c.get(k), str): c[k] = c[k].encode("latin-1")
         if "files" in c:
             from vf.runner import run_jobs
             r = run_jobs([c], timeout=600)[0]
